@@ -267,14 +267,36 @@ def check_settings(prog: Program, rep, rule: str) -> None:
     for n in ast.walk(cic.node):
         if isinstance(n, ast.Global):
             problems.append('writes a global')
-    if problems:
-        rep.fail(rule, ifc.path, cic.node.lineno, cic.qualname, 'create_interface_config', '; '.join(problems))
+    # anti-patterns that couple calculators, whatever the shape: a store into module-level state
+    from ..effects import Effects
+    eng_ = Effects(prog)
+    shared = [e for (o, fld), e in eng_.summaries[cic.fq].effects.items() if o[0] == 'global' and fld != '_defined_units']
+    hard = [p_ for p_ in problems if 'mutable default' in p_ or 'writes a global' in p_ or 'is taken from' in p_]
+    if shared:
+        hard.append(f'stores into module-level `{shared[0].origin[2]}` ({shared[0].text[:50]}): the settings of one '
+                    f'calculator leak into the next')
+    if hard:
+        rep.fail(rule, ifc.path, cic.node.lineno, cic.qualname, 'create_interface_config', '; '.join(hard))
+    elif problems:
+        rep.undecided(rule, cic.where, 'create_interface_config', 'shape not recognised: ' + '; '.join(problems)[:200])
     else:
         rep.ok(rule, cic.where, 'fresh defaults per call, caller overrides on top, returns Config(**config)')
     calc_pi = prog.func(C.M_IF, 'Calculator.__post_init__')
     rep.saw(calc_pi)
     txt = [norm(n) for n in ast.walk(calc_pi.node) if isinstance(n, ast.Assign)]
-    if any(t == 'self._calc = TrajectoryCalc(create_interface_config(self._config))' for t in txt):
+    cic_calls = [c for c in ast.walk(calc_pi.node) if isinstance(c, ast.Call) and norm(c.func) == 'create_interface_config']
+    tcalls = [c for c in ast.walk(calc_pi.node) if isinstance(c, ast.Call) and norm(c.func) == 'TrajectoryCalc']
+    own = False
+    if len(cic_calls) == 1 and len(tcalls) == 1 and [norm(a) for a in cic_calls[0].args] == ['self._config']:
+        arg = tcalls[0].args[0] if tcalls[0].args else (tcalls[0].keywords[0].value if tcalls[0].keywords else None)
+        direct = arg is cic_calls[0]
+        via_local = isinstance(arg, ast.Name) and any(
+            isinstance(n, ast.Assign) and isinstance(n.targets[0], ast.Name) and n.targets[0].id == arg.id
+            and n.value is cic_calls[0] for n in ast.walk(calc_pi.node))
+        p_ = parent(tcalls[0])
+        stored = isinstance(p_, ast.Assign) and norm(p_.targets[0]) == 'self._calc'
+        own = (direct or via_local) and stored
+    if own:
         rep.ok(rule, calc_pi.where, 'each Calculator builds its own TrajectoryCalc from its own settings')
     else:
         rep.fail(rule, prog.module(C.M_IF).path, calc_pi.node.lineno, calc_pi.qualname, 'own-calc',
